@@ -461,7 +461,8 @@ func init() {
 			w["ing_create"], w["ing_delete"], w["ing_update"] = 14, 12, 8
 			rc.World, rc.Ops = GenerateRun(seed, GenOptions{Sparse: true, IngressKeys: []string{"balance-algorithm", "timeout-server"},
 				GlobalKeys: []string{"ssl-redirect", "drain-support", "timeout-client"},
-				Hosts:      []string{"app.local", "api.local"}, Paths: []string{"/", "/app", "/api"}, MinOps: mn, MaxOps: mx, QuiesceEvery: pickInt(r, 2, 4), KeysPerRun: 2, W: w, NoForeignClass: true,
+				Hosts:      []string{"app.local", "api.local"}, Paths: []string{"/app", "/app", "/"}, MinOps: mn, MaxOps: mx, QuiesceEvery: pickInt(r, 2, 4), KeysPerRun: 2, W: w, NoForeignClass: true,
+				NoOwnHost: true, NoTLS: r.IntN(4) != 0, NoDefaultBackend: true,
 				IgnoreAvoid: []string{"no_dup_paths"}, ExtraAvoid: []string{"dup_paths_exclusive_service"}, MaxIngresses: 6})
 			return rc
 		}})
